@@ -478,6 +478,8 @@ def gen_case(rng, cfg):
             "sessions": sessions}
     if refused and rng.random() < 0.6:
         case["continue_after_reject"] = True     # the refused call is caught, the writer keeps being used
+    if target == "path" and rng.random() < 0.35:
+        case["first_mode"] = rng.choice(["a", "a_empty"])
     return case
 
 
@@ -652,7 +654,16 @@ def run_writer(case, workdir, tag):
             if files is None:
                 w = TdmsWriter(buf, version=version, index_file=ibuf)
             else:
-                w = TdmsWriter(files, mode="w" if si == 0 else "a", version=version, index_file=want_index)
+                # the first session of a path target may itself be an append session: on a path that does not
+                # exist yet, or on an existing EMPTY file (an earlier session that wrote nothing) - the file it
+                # produces must be the one mode 'w' produces
+                first = case.get("first_mode", "w")
+                if si == 0 and first == "a_empty":
+                    open(files, "wb").close()
+                    if want_index:
+                        open(files + "_index", "wb").close()
+                w = TdmsWriter(files, mode=("w" if first == "w" else "a") if si == 0 else "a", version=version,
+                               index_file=want_index)
             with w:
                 for ci, objs in enumerate(calls):
                     thunks, exp = prepare_call(objs)
@@ -984,8 +995,10 @@ def flat(exps):
 
 def describe(case):
     n = sum(len(s) for s in case["sessions"])
-    return "%d session(s), %d call(s), version %d, index %s, %s" % (
-        len(case["sessions"]), n, case["version"], case["index"], case["target"])
+    return "%d session(s), %d call(s), version %d, index %s, %s%s" % (
+        len(case["sessions"]), n, case["version"], case["index"], case["target"],
+        {"a": ", first session mode 'a' on a new path", "a_empty": ", first session mode 'a' on an empty file"}.get(
+            case.get("first_mode"), ""))
 
 
 def count_case(run, case):
